@@ -6,7 +6,7 @@ from gen_core import S, L, N, typed
 
 TYPES = [("agent", "object"), ("item", "object"), ("loc", "object")]
 PREDS = {"at": ["agent", "loc"], "has": ["agent", "item"], "on": ["item", "loc"], "clear": ["loc"], "done": ["item"],
-         "busy": ["agent"]}
+         "busy": ["agent"], "alarm": []}
 FUNCS = {"load": ["agent"], "total": []}
 
 
@@ -44,6 +44,11 @@ TEMPLATES = {
     "inspect": ([["?a", "agent"], ["?l", "loc"]],
                 [A("at", "?a", "?l"), L(S("or"), A("clear", "?l"), A("busy", "?a")), L(S("<="), L(S("total")), N(100))],
                 [L(S("when"), A("clear", "?l"), A("busy", "?a"))]),
+    # facts without any parameter: one agent's action enables / disables another's although they share no object
+    "disarm": ([["?a", "agent"]], [A("alarm")], [NOT(A("alarm"))]),
+    "arm": ([["?a", "agent"]], [NOT(A("alarm")), NOT(A("busy", "?a"))], [A("alarm")]),
+    "work": ([["?a", "agent"], ["?o", "item"]], [NOT(A("alarm")), A("has", "?a", "?o")], [A("done", "?o")]),
+    "signal": ([["?a", "agent"]], [L(S(">="), L(S("total")), N(2)), NOT(A("busy", "?a"))], [A("busy", "?a")]),
     "count": ([["?a", "agent"]],
               [L(S(">="), L(S("load"), S("?a")), N(0))],
               [L(S("increase"), L(S("total")), L(S("+"), L(S("load"), S("?a")), N(1, 2)))]),
@@ -51,7 +56,7 @@ TEMPLATES = {
 
 
 def gen_domain(rng):
-    names = ["move", "pick", "drop"] + rng.sample(["mark", "clean", "block", "rest", "inspect", "count"], rng.choice([2, 3, 4]))
+    names = ["move", "pick", "drop"] + rng.sample(["mark", "clean", "block", "rest", "inspect", "count", "disarm", "arm", "work", "signal"], rng.choice([3, 4, 5]))
     acts = []
     for n in names:
         params, pre, eff = TEMPLATES[n]
@@ -74,6 +79,7 @@ def gen_problem(rng, n_agents):
     facts += [["on", [i, rng.choice(locs)]] for i in items]
     facts += [["clear", [x]] for x in locs if rng.random() < 0.5]
     facts += [["busy", [a]] for a in agents if rng.random() < 0.3]
+    facts += [["alarm", []]] if rng.random() < 0.5 else []
     fl = [["load", [a], [0, 1]] for a in agents] + [["total", [], [0, 1]]]
     items_t = [L(S(p), *[S(x) for x in a]) for p, a in facts] + \
               [L(S("="), L(S(f), *[S(x) for x in a]), {"t": "n", "v": v}) for f, a, v in fl]
